@@ -924,26 +924,17 @@ def run19(ctx):
                   sample=dict(toks=c["toks"], outcome_per_variant=o["out"]) if len(c["toks"]) == 3 and len(ctx.samples) < 3 else None)
         for b in o.get("bad", []):
             stats["other"] += 1
-            # shortest contiguous sub-sequence that fails the same way names the class
+            # the class of a failure is what went wrong and where: kind, normalised message, panicking function of package asp
+            # (from the parser's own debug log / the escaped panic's stack); token categories are detail, not class
+            site = b.get("site") or ""
+            sig = "C19 %s: %s%s" % (b["kind"], norm_msg(b["msg"]), (" at " + site) if site else "")
             best = c
-            T = c["toks"]
-            for ln in range(1, len(T)):
-                hit = None
-                for st in range(0, len(T) - ln + 1):
-                    sub = bad_by_toks.get(tuple(T[st:st + ln]))
-                    if sub and any(x["kind"] == b["kind"] and norm_msg(x["msg"]) == norm_msg(b["msg"]) for x in sub[1]):
-                        hit = sub[0]
-                        break
-                if hit:
-                    best = hit
-                    break
-            sig = "C19 %s: %s tokens=%s" % (b["kind"], norm_msg(b["msg"]), lex_class(best["cats"]))
             try:
                 text = base64.b64decode(b["data"]).decode("latin-1")
             except Exception:
                 text = ""
             ctx.violation(sig, dict(toks=c["toks"], cats=c["cats"], sep=b["sep"], frame=b["frame"], kind=b["kind"],
-                                    message=b["msg"][:600], input_latin1=text, minimal=best["toks"]))
+                                    message=b["msg"][:600], site=site, input_latin1=text, lexer_class=lex_class(c["cats"])))
     ctx.traces_validated = len(cases) * nvar
     ctx.exhaustive = ctx.replay_only is None
     ctx.extra.update(outcomes=stats, variants=nvar, alphabet_size=len(alphabet))
